@@ -185,6 +185,18 @@ namespace vh
             }
             if (!g0 || !g1)
                 return out;
+            // optional second cache-less grid of the same type but another geometry, alive at the
+            // same time (instance 2)
+            std::unique_ptr<GN> g2;
+            int dsc2 = 0;
+            if (c.has("grid2"))
+            {
+                g2 = grid_maker<GN>::make(c["grid2"]);
+                dsc2 = static_cast<int>(c["grid2"].get_int("sc", 0));
+                vj::obj o;
+                o.str("e", "GridNew2").raw("d", vj::dump(c["grid2"]));
+                out += o.done() + "\n";
+            }
             iterate(out, *g0, c);
             if (c.has("queries"))
                 for (auto& qp : c["queries"].a)
@@ -203,6 +215,14 @@ namespace vh
                         if constexpr (RC)
                             if (rc_acc || acc == "all")
                                 answer_rc(o, *g0, acc, i, dsc);
+                    }
+                    else if (inst == 2 && g2)
+                    {
+                        if (!rc_acc)
+                            answer(o, *g2, acc, i, dsc2);
+                        if constexpr (RC)
+                            if (rc_acc || acc == "all")
+                                answer_rc(o, *g2, acc, i, dsc2);
                     }
                     else
                     {
